@@ -675,4 +675,89 @@ def kernelCallback (closed retired dryrun : Bool) (outbound i : Nat) (alive isIn
 /-- the (key, value) `outboundAliveChangeCallback` writes. -/
 def kernelWrite (outbound i : Nat) (alive : Bool) : Nat × Nat := (kernelKey outbound i, if alive then 1 else 0)
 
+/-! ## the kernel connectivity map as state shared by generations
+
+Every generation has its own `controlPlaneCore`; the groups of all generations write the SAME BPF
+array map, and a reload gives the new generation's groups the same outbound ids as the old one's.
+`MarkRetired` (and closing the core) silences a generation's callbacks. -/
+
+/-- how one group is wired by `NewControlPlane`: its core (generation), outbound id, dry-run flag
+(`dial_mode` other than `ip`) -/
+structure KWire where
+  core : Nat
+  ob : Nat
+  dryrun : Bool
+
+structure KWorld where
+  w : World
+  kmap : Nat → Nat                  -- `outbound_connectivity_map`
+  lastWriter : Nat → Option Nat     -- ghost: which group wrote the key last
+  silenced : Nat → Bool             -- the core is retired or closed
+  wiring : Nat → Option KWire       -- group id ↦ wiring
+
+/-- slots never written hold the sentinel 7 (the harness pre-fills the real map with it) -/
+def KWorld.init : KWorld := ⟨World.init, fun _ => 7, fun _ => none, fun _ => false, fun _ => none⟩
+
+/-- the group callback of one `Out.group`, through the closure `outboundAliveChangeCallback` built
+for that group on its core -/
+def applyOut (kw : KWorld) : Out → KWorld
+  | .group g i alive isInit =>
+    match kw.wiring g with
+    | none => kw
+    | some k =>
+      match kernelCallback false (kw.silenced k.core) k.dryrun k.ob i alive isInit with
+      | none => kw
+      | some kv => { kw with kmap := upd kw.kmap kv.1 kv.2, lastWriter := upd kw.lastWriter kv.1 (some g) }
+  | _ => kw
+
+def applyOuts (kw : KWorld) : List Out → KWorld
+  | [] => kw
+  | x :: xs => applyOuts (applyOut kw x) xs
+
+inductive KEvent
+  | base (e : Event)
+  | wire (g core ob : Nat) (dryrun : Bool)     -- `core.outboundAliveChangeCallback(ob, dryrun)` handed to group g
+  | silence (core : Nat)                       -- `MarkRetired` / core closed
+
+def kstep (kw : KWorld) : KEvent → KWorld
+  | .base e =>
+    let r := step kw.w e
+    applyOuts { kw with w := r.1 } r.2
+  | .wire g c ob d => { kw with wiring := upd kw.wiring g (some ⟨c, ob, d⟩) }
+  | .silence c => { kw with silenced := upd kw.silenced c true }
+
+def krun : KWorld → List KEvent → KWorld
+  | kw, [] => kw
+  | kw, e :: es => krun (kstep kw e) es
+
+/-! ## concurrent reports on one node and one set (interleaving model)
+
+A report stores the node's flag under the node lock (`store`) and, after releasing it, notifies the
+set (`deliver`).  Before fix 13e43e7 the notification carried the value captured at the store; now
+`NotifyAliveState` reads the node's current flag once the set's notifications are serialised. -/
+
+inductive RAct
+  | store (i : Nat) (v : Bool)    -- report i: `collection.Alive.Store(v)` under `collectionFineMu`
+  | deliver (i : Nat)             -- report i: its notification reaches the set (serialised by `notifyMu`)
+deriving DecidableEq, Repr
+
+structure RState where
+  node : Bool
+  set : Bool                      -- does the set list the node
+  captured : Nat → Bool           -- value captured by report i at its store
+  pending : List Nat              -- reports that stored and have not delivered since
+
+def RState.init (b : Bool) : RState := ⟨b, b, fun _ => b, []⟩
+
+/-- one atomic action; `current = true`: the fixed protocol (deliver the node's current flag),
+`current = false`: the old protocol (deliver the captured value) -/
+def rstep (current : Bool) (s : RState) : RAct → RState
+  | .store i v => { s with node := v, captured := upd s.captured i v, pending := i :: s.pending }
+  | .deliver i =>
+    { s with set := (if current then s.node else s.captured i), pending := s.pending.filter (· != i) }
+
+def rrun (current : Bool) : RState → List RAct → RState
+  | s, [] => s
+  | s, a :: as => rrun current (rstep current s a) as
+
 end DaeVerif.C16
